@@ -215,7 +215,7 @@ HUNT = Harness(
     outside="reported as bug hunting only: 'not confirmed' here is inconclusive and does not affect the verdict",
     tree_check=False,
     hunting_only=True,
-    cond_timeout=lambda tier: 40 if tier == "quick" else 600,
+    cond_timeout=lambda tier: 40 if tier == "quick" else 300,
 )
 
 HARNESSES = [M, MSYM, HUNT]
